@@ -196,7 +196,7 @@ pub fn check_reader(store: &Shared, m: &Model, rc: &ReadCfg<'_>, ctx: &mut Ctx) 
             }
         }
         // by_name returns the last duplicate
-        let mut seen = std::collections::HashMap::new();
+        let mut seen = std::collections::BTreeMap::new();
         for (i, e) in m.entries.iter().enumerate() {
             seen.insert(e.name.clone(), i);
         }
